@@ -1,16 +1,17 @@
 /-
-M4 (values and heaps) for C08/C09: per-thread heaps, tagged values, `Value::deep_copy` (vm.rs), the raw
-channel payloads of `ChannelWrite` / copy-at-read of `ChannelRead`, and thread teardown.
+M4 (values and heaps) for C08/C09: per-thread heaps, tagged values, `Value::deep_copy_helper` (vm.rs) as used by
+`SpawnTask`, channel messages (snapshot at `ChannelWrite`, rebuilt at `ChannelRead`, fix 97d7808), thread teardown.
 
 * An address is (thread id, index): every green thread allocates in its own heap (`heap_list`); the
   bytes of an object can be read through a raw pointer by any thread (`get_struct` etc. take the pointer
-  from the `Value`, not from the thread), which is what `deep_copy(&mut new_thread)` relies on.
+  from the `Value`, not from the thread), which is what `deep_copy_helper(&mut new_thread, …)` relies on.
 * Objects are never collected in this model (collection is C06); a heap disappears as a whole when its
   thread is dropped (`impl Drop for VmGreenThread`).
 * `deepCopyM` follows `Value::deep_copy_helper` (after fix 0cb8741 of defect D24): a map from the address
   of every source object copied so far to its copy; the copy is allocated with placeholder fields and
   recorded BEFORE its children are copied, then filled.  All captures of one `SpawnTask` share one map
-  (`spawnCopy`); a channel read starts with an empty map (`deepCopy`).  Fuel stands for the host stack;
+  (`spawnCopy`); `deepCopy` is the copy of a single value with an empty map (a spawn with one capture; also the
+  building block of `chanReceive` below).  Fuel stands for the host stack;
   the number of reachable source objects + 1 suffices (`deepCopyM_total`).  `none` is a fault: out of
   fuel, dangling pointer, or a tag that does not match the object.
   Two presentation choices, both invisible in the result: source objects are read from the heaps as they
@@ -291,7 +292,8 @@ def deepCopyM : Nat → Heaps → Heaps → CopyMap → Nat → Val → Option (
             | some (ks, H2, M2) => some (retag v al.1, putObj H2 al.1 (obj.withKids ks), M2)
           else none
 
-/-- `Value::deep_copy(self, vm)`: a fresh map (used by `ChannelRead`) -/
+/-- the copy of one value starting from an empty map (`SpawnTask` with a single capture; before fix 97d7808 this was
+    `Value::deep_copy`, then also used by `ChannelRead` — see `chanReceiveOld`) -/
 def deepCopy (fuel : Nat) (H : Heaps) (t : Nat) (v : Val) : Option (Val × Heaps) :=
   (deepCopyM fuel H H [] t v).map fun r => (r.1, r.2.1)
 
